@@ -209,9 +209,17 @@ func NewMemberContentFromAuthEvents(authEvents AuthEventProvider, senderID spec.
 // NewMemberContentFromEvent parse the member content from an event.
 // Returns an error if the content couldn't be parsed.
 func NewMemberContentFromEvent(event PDU) (c MemberContent, err error) {
-	if err = json.Unmarshal(event.Content(), &c); err != nil {
+	// Member names are exact. encoding/json also matches other spellings of a field's name ("Membership",
+	// "Join_authorised_via_users_server"), which no other reader of the event sees: not the redaction
+	// algorithm (so not the signed form either), not the signature checks, not other implementations.
+	content, err := exactFieldsOnly(event.Content(), &c)
+	if err != nil {
+		err = errorf("unparseable member event content: %s", err.Error())
+		return
+	}
+	if err = json.Unmarshal(content, &c); err != nil {
 		var partial membershipContent
-		if err = json.Unmarshal(event.Content(), &partial); err != nil {
+		if err = json.Unmarshal(content, &partial); err != nil {
 			err = errorf("unparseable member event content: %s", err.Error())
 			return
 		}
